@@ -17,7 +17,7 @@ _bd = os.environ.get('VERIF_BUILD_DIR')
 if _bd:
     assert optree.__file__.startswith(_bd) and optree._C.__file__.startswith(_bd), (optree.__file__, optree._C.__file__, _bd)
 
-KINT, KSTR, KFLT, KORD, KUNORD, KNEST = 0, 1, 2, 3, 4, 5
+KINT, KSTR, KFLT, KORD, KUNORD, KNEST, KTIE = 0, 1, 2, 3, 4, 5, 6
 NCUSTOM, NLEAF, NNONE, NTUPLE, NLIST, NDICT, NNT, NODICT, NDDICT, NDEQUE, NSS = range(11)
 KIND_NAME = {NCUSTOM: 'custom', NLEAF: 'leaf', NNONE: 'none', NTUPLE: 'tuple', NLIST: 'list', NDICT: 'dict',
              NNT: 'nt', NODICT: 'odict', NDDICT: 'ddict', NDEQUE: 'deque', NSS: 'ss'}
@@ -73,6 +73,29 @@ class KOrd:
 
     def __repr__(self):
         return f'KOrd({self.v})'
+
+
+class KTie:
+    """user key type with a WEAK order (like frozensets under <, or floats with nan): KTie(2r) and KTie(2r+1) are different keys,
+    neither is less than the other; a stable sort keeps them in insertion order"""
+    __slots__ = ('v',)
+
+    def __init__(self, v):
+        self.v = v
+
+    def __eq__(self, o):
+        return type(o) is KTie and o.v == self.v
+
+    def __hash__(self):
+        return hash(('KTie', self.v))
+
+    def __lt__(self, o):
+        if type(o) is not KTie:
+            return NotImplemented
+        return self.v // 2 < o.v // 2
+
+    def __repr__(self):
+        return f'KTie({self.v})'
 
 
 class KUnord:
@@ -168,7 +191,7 @@ class MetaHook:
         return f'MetaHook({self.v})'
 
 
-KOrd.__module__ = KUnord.__module__ = 'vuniv'
+KOrd.__module__ = KUnord.__module__ = KTie.__module__ = 'vuniv'
 sys.modules.setdefault('vuniv', sys.modules[__name__])   # so that keys can be pickled by reference   # type-name rank: builtins.float < builtins.int < builtins.str < vuniv.KOrd < vuniv.KUnord
 
 
@@ -186,6 +209,8 @@ def mk_key(k):
         return KUnord(v)
     if ty == KNEST:
         return Wrap.AOrd(v)
+    if ty == KTIE:
+        return KTie(v)
     raise ValueError(k)
 
 
@@ -205,6 +230,8 @@ def proj_key(o):
         return [KUNORD, o.v]
     if t is Wrap.AOrd:
         return [KNEST, o.v]
+    if t is KTie:
+        return [KTIE, o.v]
     raise ValueError(f'key outside the universe: {o!r}')
 
 
